@@ -150,8 +150,9 @@ class Harness:
                 self.last_leader_rx = self.now
                 self.breakup_from_leader = False
                 self.join_t = None
-            if k in ("rx_plain", "rx_cluster", "rx_breakup") and ev[1] == m._leader_station_id:
-                self.last_leader_rx = self.now
+            sender = ev[1] if k in ("rx_plain", "rx_cluster", "rx_breakup") else (OTHER if k in ("rx_join_own", "rx_leave_own") else None)
+            if sender is not None and sender == m._leader_station_id:
+                self.last_leader_rx = self.now          # any VAM of the leader re-arms the leader-lost timer
             if k == "rx_breakup" and ev[1] == m._leader_station_id and ev[2] != "receptionOfCpmContainingCluster":
                 self.breakup_from_leader = True
         if before is VBSState.VRU_PASSIVE and after is VBSState.VRU_ACTIVE_STANDALONE:
